@@ -401,6 +401,56 @@ class Parameter(object):
 
         return self._value
 
+    def _get_floating_settings(self, initial=None, valmin=None, valmax=None):
+        """Determines the initial, minimal, and maximal value this parameter
+        would get through the :meth:`make_floating` method called with the
+        given arguments, and checks them. This parameter is not changed.
+
+        The arguments and the raised exceptions are those of the
+        :meth:`make_floating` method.
+
+        Returns
+        -------
+        initial : float
+            The initial value.
+        valmin : float
+            The minimal value.
+        valmax : float
+            The maximal value.
+        """
+        if initial is None:
+            initial = self._value
+        if valmin is None:
+            if self._valmin is None:
+                raise ValueError(
+                    f'The current minimal value of parameter "{self._name}" '
+                    'is not set. So it must be defined through the valmin '
+                    'argument!')
+            valmin = self._valmin
+        if valmax is None:
+            if self._valmax is None:
+                raise ValueError(
+                    f'The current maximal value of parameter "{self._name}" '
+                    'is not set. So it must be defined through the valmax '
+                    'argument!')
+            valmax = self._valmax
+
+        initial = float_cast(
+            initial,
+            'The "initial" property must be castable to type float!')
+        valmin = float_cast(
+            valmin,
+            'The "valmin" property must be castable to type float!')
+        valmax = float_cast(
+            valmax,
+            'The "valmax" property must be castable to type float!')
+        if (initial < valmin) or (initial > valmax):
+            raise ValueError(
+                f'The value ({initial}) of parameter "{self._name}" must be '
+                f'within the range [{valmin:g}, {valmax:g}]!')
+
+        return (initial, valmin, valmax)
+
     def make_floating(self, initial=None, valmin=None, valmax=None):
         """Defines this parameter as floating with the given initial, minimal,
         and maximal value.
@@ -429,23 +479,11 @@ class Parameter(object):
         ValueError
             If valmin is set to None and this parameter has no valmin defined.
             If valmax is set to None and this parameter has no valmax defined.
+            If the initial value is outside the range [valmin, valmax].
         """
-        if initial is None:
-            initial = self._value
-        if valmin is None:
-            if self._valmin is None:
-                raise ValueError(
-                    f'The current minimal value of parameter "{self._name}" '
-                    'is not set. So it must be defined through the valmin '
-                    'argument!')
-            valmin = self._valmin
-        if valmax is None:
-            if self._valmax is None:
-                raise ValueError(
-                    f'The current maximal value of parameter "{self._name}" '
-                    'is not set. So it must be defined through the valmax '
-                    'argument!')
-            valmax = self._valmax
+        # Check the request before anything gets modified.
+        (initial, valmin, valmax) = self._get_floating_settings(
+            initial, valmin, valmax)
 
         self._isfixed = False
         self.initial = initial
@@ -903,10 +941,13 @@ class ParameterSet(
 
         # Check the request before anything gets modified.
         for param in self._params:
-            if (param.name in float_params_keys) and (param.isfixed is False):
-                raise ValueError(
-                    f'The parameter "{param.name}" is already a floating '
-                    'parameter!')
+            if param.name in float_params_keys:
+                if param.isfixed is False:
+                    raise ValueError(
+                        f'The parameter "{param.name}" is already a floating '
+                        'parameter!')
+                param._get_floating_settings(
+                    *_parse_float_param_dict_entry(float_params[param.name]))
 
         self._fixed_param_name_list = []
         self._floating_param_name_list = []
